@@ -447,7 +447,15 @@ func (fc *FuncCtx) wf(t string, gt types.Type) string {
 	case *types.Pointer, *types.Map, *types.Chan, *types.Signature:
 		return fmt.Sprintf("(<= 0 %s)", t)
 	case *types.Interface:
-		return fmt.Sprintf("(and (<= 0 (i-typ %s)) (=> (= (i-typ %s) 0) (= (i-val %s) 0)))", t, t, t)
+		base := fmt.Sprintf("(and (<= 0 (i-typ %s)) (=> (= (i-typ %s) 0) (= (i-val %s) 0)))", t, t, t)
+		// a value of one of go/ast's node interfaces (Node, Expr, Stmt, Decl, Spec) is nil or of a type that
+		// implements it (the Go type system): a declaration is never a block, an expression never a statement
+		if n, ok := gt.(*types.Named); ok && n.Obj().Pkg() != nil && n.Obj().Pkg().Path() == "go/ast" && u.NumMethods() > 0 {
+			f := fc.eng.ufun("implements_"+shortTypeName(n), []string{"Int"}, "Bool")
+			fc.eng.noteIfaceAssert(n, f)
+			return fmt.Sprintf("(and %s (or (= (i-typ %s) 0) (%s (i-typ %s))))", base, t, f, t)
+		}
+		return base
 	case *types.Struct:
 		info := fc.eng.sorts.structInfoOf(gt)
 		if info == nil {
